@@ -53,6 +53,8 @@ struct AUncle {
     pv: String,
     #[serde(default)]
     v: u64,
+    #[serde(default)]
+    dist: u64,
 }
 #[derive(Deserialize, Clone, Debug)]
 struct ABlock {
@@ -119,7 +121,35 @@ fn rand_hash(seed: u64) -> Byte32 {
     Byte32::new(b)
 }
 
-fn uncle_of(w: &World, u: &AUncle) -> Result<UncleBlockView, String> {
+fn uncle_of(w: &World, u: &AUncle, block_epoch: EpochNumberWithFraction) -> Result<UncleBlockView, String> {
+    if u.r.k == "cs" || u.r.k == "cm" || u.r.k == "cc" {
+        // a fabricated header: names its parent by hash, claims the block's epoch and parent.number + dist
+        let fab = |parent: &ckb_types::core::HeaderView, dist: u64, v: u64, target_ok: bool| {
+            let t = parent.compact_target();
+            ckb_types::core::HeaderBuilder::default()
+                .parent_hash(parent.hash())
+                .number(parent.number() + dist)
+                .epoch(block_epoch)
+                .compact_target(if target_ok { t } else { other_target(t) })
+                .timestamp(parent.timestamp() + 1 + dist + 10 * v)
+                .build()
+        };
+        let main = |i: u64| -> Result<ckb_types::core::HeaderView, String> {
+            if i == 0 {
+                Ok(w.consensus.genesis_block().header())
+            } else {
+                Ok(w.chain.get(i as usize - 1).cloned().ok_or_else(|| format!("main {} not built", i))?.header())
+            }
+        };
+        let parent = match u.r.k.as_str() {
+            "cs" => w.sides.get(u.r.i as usize - 1).and_then(|x| x.clone()).ok_or_else(|| format!("side {} not built", u.r.i))?.header(),
+            "cm" => main(u.r.i)?,
+            _ => fab(&main(u.r.i)?, 1, 0, true), // "cc": child of the fabricated child of main block i
+        };
+        let header = fab(&parent, u.dist, u.v, u.target == "epoch");
+        let ub = packed::UncleBlock::new_builder().header(header.data()).build();
+        return Ok(ub.into_view());
+    }
     let base: BlockView = if u.r.k == "s" {
         w.sides.get(u.r.i as usize - 1).and_then(|x| x.clone()).ok_or_else(|| format!("side {} not built", u.r.i))?
     } else {
@@ -228,7 +258,7 @@ fn realise(w: &mut World, n: &Node, a: &ABlock) -> Result<BlockView, String> {
     let proposals: Vec<ProposalShortId> = a.props.iter().map(|id| short_id_of(w, *id)).collect();
     let mut uncles = vec![];
     for u in &a.uncles {
-        uncles.push(uncle_of(w, u)?);
+        uncles.push(uncle_of(w, u, epoch.number_with_fraction(pos))?);
     }
     let root = snap.chain_root_mmr(tip.number()).get_root().map_err(|e| e.to_string())?.calc_mmr_hash();
     let ext: Option<packed::Bytes> = {
